@@ -199,7 +199,7 @@ End Inline.
 Fixpoint set_first (tag v : N) (l : list (N * N)) (done : bool) : list (N * N) :=
   match l with [] => [] | (t, v0) :: r => if N.eqb t tag && negb done then (t, v) :: set_first tag v r true else (t, v0) :: set_first tag v r done end.
 Definition set_prop (tag : N) (on suppress : bool) (l : list (N * N)) : list (N * N) :=
-  if on then (if existsb (fun tv => N.eqb (fst tv) tag) l then set_first tag 1%N l false else l ++ [(tag, 1%N)])
+  if on then (if existsb (fun tv => N.eqb (fst tv) tag) l then set_first tag 2%N l false else l ++ [(tag, 2%N)])   (* w:val="1" *)
   else if suppress then set_first tag 0%N l false
   else l.
 Definition apply_run_props (f : rpr) (b i suppress : bool) : rpr :=
